@@ -21,6 +21,70 @@ func init() {
 
 func c17() []*Ob {
 	return []*Ob{
+		{Prop: "C17", ID: "C17.7", Engine: "PAIR", Floor: 1,
+			Desc:  "a repeat that sits in the next fraction does not cost a hit: ids whose timestamp equals the border of the next, not yet searched fraction are not counted as final (the early-termination test of calcEnsuredIDsCount is non-strict and uses the border the list was sorted by — shared rule with C05.2); counted as final, the re-delivered document at the border comes back from the next fraction inside the reduced limit, the merge drops it as a repetition and the answer is one id short",
+			Check: func(c *Ctx) { sortKeyIsCutKey(c) }},
+		{Prop: "C17", ID: "C17.8", Engine: "DOM(loop exit)", Floor: 1,
+			Desc: "every fraction of the range is read: the loop of fetchDocsAsync that starts one fetch per fraction is left early only when the request's context is done — not on a count of documents found so far: a re-delivered document lives in two fractions and is counted twice, so a count-based stop skips the fractions that hold the other requested ids and they come back empty",
+			Check: func(c *Ctx) {
+				fn := c.Fn("(*fracmanager.Fetcher).fetchDocsAsync")
+				if fn == nil {
+					return
+				}
+				var loop *Loop
+				for _, l := range Loops(fn) {
+					for b := range l.Blocks {
+						for _, in := range b.Instrs {
+							if _, isGo := in.(*ssa.Go); isGo && (loop == nil || loop.Contains(l)) {
+								loop = l
+							}
+						}
+					}
+				}
+				if loop == nil {
+					c.Undecided("dom:fetchDocsAsync:noloop", fn.Pos(), "fetchDocsAsync no longer starts the per-fraction fetches from a loop")
+					return
+				}
+				doneCase := func(f Fact) bool {
+					bo, ok := f.Cond.(*ssa.BinOp)
+					if !ok || (bo.Op != token.EQL && bo.Op != token.NEQ) || (bo.Op == token.EQL) != f.Val {
+						return false
+					}
+					e, ok := bo.X.(*ssa.Extract)
+					if !ok || e.Index != 0 {
+						return false
+					}
+					sel, ok := e.Tuple.(*ssa.Select)
+					k, isK := ConstInt(bo.Y)
+					if !ok || !isK || int(k) >= len(sel.States) {
+						return false
+					}
+					return DerivesFrom(sel.States[k].Chan, func(v ssa.Value) bool {
+						cl, ok := v.(ssa.CallInstruction)
+						return ok && CallName(cl) == "(context.Context).Done"
+					})
+				}
+				exits := loop.EarlyExits()
+				bad := 0
+				for _, e := range exits {
+					if _, isPanic := e[1].Instrs[len(e[1].Instrs)-1].(*ssa.Panic); isPanic {
+						continue // the compiler's "blocking select matched no case" trap, or an explicit panic: not a silent skip
+					}
+					ok := false
+					for _, f := range append(FactsAt(e[0]), FactsOnEdge(e[0], e[1])...) {
+						if doneCase(f) {
+							ok = true
+						}
+					}
+					if !ok {
+						bad++
+						c.Violation("dom:fetchDocsAsync:early-exit", e[0].Instrs[len(e[0].Instrs)-1].Pos(), "fetchDocsAsync leaves the loop over the fractions although the request's context is not done: the remaining fractions are never read and their documents come back empty")
+					}
+				}
+				if bad == 0 {
+					c.Site(loop.Header.Instrs[0].Pos(), "the per-fraction loop is left early only when the context is done (%d early exit(s))", len(exits))
+				}
+			}},
 		{Prop: "C17", ID: "C17.1", Engine: "ORDER+DOM+PROV", Floor: 3,
 			Desc: "filter before anything is indexed: in appendWorker, collector.Filter(appended) takes SetMultiple's result, is guarded by len(appended) != len(collector.IDs), follows SetMultiple and precedes AppendIDs / TokenList.Append / GroupLIDsByToken / UpdateStats; those take their arguments from the collector after the filter",
 			Check: func(c *Ctx) {
